@@ -220,6 +220,12 @@ impl Searcher {
             }
         }
 
+        // A node cut off by the clock has not seen all of its moves: its score is
+        // not a bound on anything and must not be cached for later searches
+        if self.timer.should_stop() {
+            return best_result;
+        }
+
         let bound = self.determine_bound(best_result.score, original_alpha, beta);
         self.store_in_transposition_table(board, &best_result, depth, bound);
 
